@@ -9,6 +9,8 @@ it is NOW (after 686eb360: `IteratorPrefixWithStart` honours its prefix).
   iteration / start-bounded iteration with ANY prefix (forward, or reverse without a start key)
   MemDB and the store return identical results (induction over the sequence with `R`).
   F24a is repaired: its old witness is now an `example` of agreement.
+* `memdb_refines_spec_handles` — the same with batches as long-lived HANDLES (`bnew/bset/bdel/bwrite`,
+  several alive, each written repeatedly): both backends replay a handle's records on every `Write`.
 * `c20_full` (no restriction at all) is still REFUTED by the open findings:
   `c20_reverse_refuted` (F24b), `c20_nil_value_refuted` (F24c), `c20_set_alias_refuted` (F24d),
   `c20_get_alias_refuted` (F24e), `c20_batch_alias_refuted` (F24f); `c20_full_refuted` uses the
@@ -165,6 +167,87 @@ example : ∀ op ∈ ([.set [0x62] (some [2]), .set [0x61, 0] (some []), .batch 
 
 example : Mem.run [] [.set [0x62] (some [2]), .set [0x61, 0] (some []), .iterWS [] (some [0x61, 0]) false]
     = [.ok, .ok, .seq (some ([0x61, 0], some [])) [([0x62], some [2])]] := by decide
+
+/-! ### batch handles: a handle may be written any number of times -/
+
+def AllowedH : HOp → Prop
+  | .plain op => Allowed op
+  | .bset _ _ v => v ≠ none
+  | _ => True
+
+/-- every operation recorded in a live handle stores a non-nil value -/
+def HandlesOK (hs : Handles) : Prop := ∀ e ∈ hs, ∀ b ∈ e.2, AllowedB b
+
+theorem hGet_ok {hs : Handles} (hok : HandlesOK hs) (h : Nat) : ∀ b ∈ hGet hs h, AllowedB b := by
+  unfold hGet
+  cases hf : hs.find? (fun e => e.1 == h) with
+  | none => intro b hb; cases hb
+  | some e => exact hok e (List.mem_of_find?_eq_some hf)
+
+theorem hSet_ok {hs : Handles} (hok : HandlesOK hs) (h : Nat) (ops : List BOp) (ho : ∀ b ∈ ops, AllowedB b) :
+    HandlesOK (hSet hs h ops) := by
+  intro e he
+  unfold hSet at he
+  rcases List.mem_cons.mp he with h1 | h1
+  · subst h1; exact ho
+  · exact hok e (List.mem_filter.mp h1).1
+
+theorem stepH_refines {m s} (r : R m s) {hs : Handles} (hok : HandlesOK hs) (op : HOp) (h : AllowedH op) :
+    R (Mem.stepH (m, hs) op).1.1 (Spec.stepH (s, hs) op).1.1 ∧
+    (Mem.stepH (m, hs) op).1.2 = (Spec.stepH (s, hs) op).1.2 ∧
+    HandlesOK (Mem.stepH (m, hs) op).1.2 ∧
+    (Mem.stepH (m, hs) op).2 = (Spec.stepH (s, hs) op).2 := by
+  cases op with
+  | plain op =>
+    have := step_refines r op h
+    exact ⟨this.1, rfl, hok, this.2⟩
+  | bnew hd => exact ⟨r, rfl, hSet_ok hok hd [] (by intro b hb; cases hb), rfl⟩
+  | bset hd k v =>
+    refine ⟨r, rfl, hSet_ok hok hd _ ?_, rfl⟩
+    intro b hb
+    rcases List.mem_append.mp hb with h1 | h1
+    · exact hGet_ok hok hd b h1
+    · simp only [List.mem_singleton] at h1; subst h1; exact h
+  | bdel hd k =>
+    refine ⟨r, rfl, hSet_ok hok hd _ ?_, rfl⟩
+    intro b hb
+    rcases List.mem_append.mp hb with h1 | h1
+    · exact hGet_ok hok hd b h1
+    · simp only [List.mem_singleton] at h1; subst h1; trivial
+  | bwrite hd => exact ⟨batch_refines r _ (hGet_ok hok hd), rfl, hok, rfl⟩
+
+theorem runH_refines {m s} (r : R m s) {hs : Handles} (hok : HandlesOK hs) (ops : List HOp)
+    (h : ∀ op ∈ ops, AllowedH op) : Mem.runH (m, hs) ops = Spec.runH (s, hs) ops := by
+  induction ops generalizing m s hs with
+  | nil => rfl
+  | cons op ops ih =>
+    obtain ⟨h1, h2, h3, h4⟩ := stepH_refines r hok op (h op (by simp))
+    simp only [Mem.runH, Spec.runH]
+    rw [h4]
+    congr 1
+    have e1 : (Mem.stepH (m, hs) op).1 = ((Mem.stepH (m, hs) op).1.1, (Mem.stepH (m, hs) op).1.2) := rfl
+    have e2 : (Spec.stepH (s, hs) op).1 = ((Spec.stepH (s, hs) op).1.1, (Mem.stepH (m, hs) op).1.2) := by rw [h2]
+    rw [e1, e2]
+    exact ih h1 h3 (fun o ho => h o (List.mem_cons_of_mem _ ho))
+
+/-- **C20 with batch handles.** Also when batches are long-lived handles — several alive at once,
+    each written any number of times with arbitrary other operations in between (a later `Write`
+    replays everything the handle recorded so far, on BOTH backends) — MemDB and the ordered store
+    return identical results. -/
+theorem memdb_refines_spec_handles (ops : List HOp) (h : ∀ op ∈ ops, AllowedH op) :
+    Mem.runH ([], []) ops = Spec.runH ([], []) ops :=
+  runH_refines R.empty (by intro e he; cases he) ops h
+
+/-- the second `Write` of a handle replays its records: the deleted key is back, the overwrite undone
+    (a test by evaluation; the same on both models) -/
+example :
+    let ops : List HOp := [.bnew 1, .bset 1 [0x61, 0x31] (some [1]), .bset 1 [0x61, 0x32] (some [2]), .bwrite 1,
+      .plain (.del [0x61, 0x31]), .plain (.set [0x61, 0x32] (some [0xff])), .bset 1 [0x61, 0x33] (some [3]), .bwrite 1,
+      .plain (.iterPrefix [0x61])]
+    Mem.runH ([], []) ops = Spec.runH ([], []) ops ∧
+    (Spec.runH ([], []) ops).getLast? =
+      some (.seq none [([0x61, 0x31], some [1]), ([0x61, 0x32], some [2]), ([0x61, 0x33], some [3])]) := by decide
+
 
 /-! ### the full statement and its refutations -/
 
